@@ -38,7 +38,7 @@ for d in sorted(glob.glob(V + '/benign/*/')):
             if r.returncode:
                 bad += 1
     finally:
-        subprocess.run(['git', '-C', '/repo', 'checkout', '--', '.'])
+        subprocess.run(['git', '-C', '/repo', 'checkout', '--', '.']); subprocess.run(['git', '-C', '/repo', 'clean', '-fdq'])
     json.dump({'packages': pkgs, 'checks': res}, open(d + 'result.json', 'w'), indent=1)
 print('ALARMS' if bad else 'ALL SILENT', bad)
 sys.exit(1 if bad else 0)
